@@ -126,7 +126,7 @@ def write_rules(ck, agg, nn):
                               any(const_of(norm(x)) == NETWORK_ACK for x in e.data[1]) and
                               ((isinstance(e.node.ops[0], ast.NotEq) and e.data[0] is False) or (isinstance(e.node.ops[0], ast.Eq) and e.data[0] is True))
                               for e in out.trace if e.seq > waits[-1].seq)
-                    timed = [e for e in out.trace if e.kind == "cond" and e.data[0] is True and isinstance(e.data[1], tuple) and any(_clockish(x) for x in e.data[1]) and e.seq > waits[0].seq and e.func is f]
+                    timed = [e for e in out.trace if e.kind == "cond" and e.data[0] is True and isinstance(e.data[1], tuple) and any(_clockish(x) for x in e.data[1]) and e.seq > waits[0].seq]
                     if got:
                         agg.add("R13.3", f, "True is reported when the NETWORK_ACK arrived", value_matches(out.value, True) or isinstance(norm(out.value), Sym), "%s returns %r" % (label, out.value))
                     elif timed:
